@@ -208,3 +208,13 @@ Proof.
   apply qleb_false_iff in C4.
   apply single_ev_loop. eapply Qclt_le_trans; [exact C4|]. apply Hs; lia.
 Qed.
+
+(* the single-function route and the collocation-row route agree entry for entry *)
+Lemma routes_agree_l kv p u j :
+  open_kv kv p = true -> kn kv 0 <= u -> u <= kn kv (length kv - 1) -> (j < numdofs kv p)%nat ->
+  single_ev kv p j u = nth j (colloc_row kv p 0 u) 0.
+Proof.
+  intros Hopen H0 H1 Hj. pose proof (open_kv_ok_l kv p Hopen) as Hok.
+  rewrite colloc_row_values_l by assumption.
+  apply single_ev_eq_spec_l; [exact Hopen|]. unfold numdofs in Hj. pose proof (ok_len _ _ Hok). lia.
+Qed.
